@@ -51,8 +51,6 @@ def gen_cases(tier, seed):
         if r.random() < 0.4:
             spec.append({"p": "src/sparse", "k": "f", "size": 3 << 20, "seed": r.randrange(1, 1 << 30), "segs": [[0, 5000], [2 << 20, 9000]], "sync": True})
         pol = r.choice(["none", "none", "cfr-short", "uspace", "fault", "cfr-eof", "vanish", "full-dest"])
-        if pol == "cfr-eof" and driver == "parfile":
-            pol = "cfr-short"   # the cursor-based loop is only defined for sources that do not shrink
         rules = []
         if pol == "cfr-short":
             rules.append({"id": "s", "sys": "copy_file_range", "under": "@ROOT@", "action": "short", "len": r.choice(["half", "rand", "cap:3000", "minus1"])})
@@ -217,9 +215,8 @@ def _run_case_body(case, sb, res):
                         total += st.st_size
             incomplete = False
         got_error = any(j["t"] == "error" for j in stream)
-        shrunk = case["policy"] == "cfr-eof" and run.rule("z")["applied"] > 0
-        # (5) incomplete destination => Error update or Err (not judged when the source was made to end early)
-        if incomplete and result["ok"] and not got_error and not shrunk:
+        # (5) incomplete destination => Error update or Err (also when an in-kernel copy reported an early end of the source: D37)
+        if incomplete and result["ok"] and not got_error:
             res["viol"].append({"sig": sig0 + ":incomplete-without-error", "what": "destination incomplete but copy() returned Ok and no Error update was delivered; %s; %s"
                                 % (model.check_mirror(pre, post, mapping)[0][1], tag)})
         # (4) stream ends
@@ -228,7 +225,7 @@ def _run_case_body(case, sb, res):
         if case["updater"] != "noop":
             ssum = sum(j["v"] for j in stream if j["t"] == "size")
             # (1)
-            if result["ok"] and not got_error and not shrunk and ssum != total:
+            if result["ok"] and not got_error and ssum != total:
                 res["viol"].append({"sig": sig0 + ":size-sum", "what": "sum of Size updates %d != total length of selected regular files %d; %s" % (ssum, total, tag)})
             # (2) prefix: copied <= announced
             s = c = 0
